@@ -26,7 +26,7 @@ func init() {
 		},
 		Assumptions: []string{
 			"typed leaf values reported by the data tree are treated as scalars of that type; absent nodes and leaf-lists are node-sets",
-			"leaf-lists are used only as comparison operands (the property states their behaviour only there); absent nodes are used everywhere",
+			"a leaf-list with several values is used as an operand of comparisons and of boolean conversions (boolean(), not(), and, or) only: what string() or number() of several values is, is not stated by the property (the implementation joins the values with blanks, XPath 1.0 would take the first); empty and single-valued leaf-lists and absent nodes are used everywhere",
 			"declared arity of concat is 2 and of substring 3 (function table); other arities are not part of this property",
 			"values outside the leaf alphabet and deeper nestings are not covered",
 		},
@@ -34,7 +34,7 @@ func init() {
 }
 
 var numLeaves = []string{"0", "1", "2", "3", "0.5", "1.5", "2.5", "10", "1000000000000000000000", "0.000001", "123456789012345678", "9007199254740993", ".5", "1."}
-var strLeaves = []string{"", " ", "a", "ab", "abc", "ba", "1", " 2 ", "-1.5", "+1", "1e3", ".5", "1.", "Infinity", "NaN", "é", "aéb", "a b", "tab\tnl\n", "  a  b ", "true", "false", "0", "-0", "1 2", "- 1", "0x10", "1,5"}
+var strLeaves = []string{"", " ", "a\u00a0b", "\f1\v", "\u2028", "a", "ab", "abc", "ba", "1", " 2 ", "-1.5", "+1", "1e3", ".5", "1.", "Infinity", "NaN", "é", "aéb", "a b", "tab\tnl\n", "  a  b ", "true", "false", "0", "-0", "1 2", "- 1", "0x10", "1,5"}
 var treeLeaves = []string{"n5", "n0", "nneg", "sx", "s1", "sempty", "bt", "bf", "absent"}
 var listLeaves = []string{"ll0", "ll1", "lls", "lln"}
 
@@ -47,7 +47,8 @@ type ex struct {
 	v     xp10.Value
 	level int
 	isSet bool // direct node-set operand (tree leaf)
-	list  bool // leaf-list: comparison operand only
+	list  bool // leaf-list
+	multi bool // leaf-list with more than one value: operand of comparisons and of boolean conversions only
 }
 
 func pathNode(name string) *xp10.Node {
@@ -251,7 +252,7 @@ func run(c *engine.Ctx) {
 		pool = append(pool, ex{n: pathNode(s), v: refVals[s], isSet: true})
 	}
 	for _, s := range listLeaves {
-		pool = append(pool, ex{n: pathNode(s), v: refVals[s], isSet: true, list: true})
+		pool = append(pool, ex{n: pathNode(s), v: refVals[s], isSet: true, list: true, multi: s == "lls" || s == "lln"})
 	}
 	// the leaves themselves are level-0 cases
 	for _, e := range pool {
@@ -285,10 +286,10 @@ func run(c *engine.Ctx) {
 			fresh = append(fresh, e)
 		}
 		isNew := func(e ex) bool { return e.level == level-1 }
-		scalar := func(p []ex) []ex { // no leaf-lists
+		scalar := func(p []ex) []ex { // no multi-valued leaf-lists
 			var out []ex
 			for _, e := range p {
-				if !e.list {
+				if !e.multi {
 					out = append(out, e)
 				}
 			}
@@ -322,6 +323,13 @@ func run(c *engine.Ctx) {
 				consider(k.apply(f, []ex{a}, level, true))
 			}
 		}
+		// (XPath 1.0: a node-set converts to true iff it is not empty, whatever its size)
+		for _, a := range pool {
+			if a.multi && (isNew(a) || level == 1) {
+				consider(k.apply("boolean", []ex{a}, level, true))
+				consider(k.apply("not", []ex{a}, level, true))
+			}
+		}
 		// binary operators and 2-argument functions
 		for _, a := range pool {
 			for _, b := range pool {
@@ -332,12 +340,12 @@ func run(c *engine.Ctx) {
 					continue
 				}
 				for _, op := range binOps {
-					if (a.list || b.list) && !isCmp(op) {
+					if (a.multi || b.multi) && !isCmp(op) && op != "or" && op != "and" {
 						continue
 					}
 					consider(k.apply(op, []ex{a, b}, level, true))
 				}
-				if a.list || b.list {
+				if a.multi || b.multi {
 					continue
 				}
 				for _, f := range fn2 {
